@@ -133,11 +133,18 @@ func (p *dataSanitationProcessor) Execute(
 	onRequest.SetBody(scrubbedBody[0])
 	apiStream.SetRequest(onRequest)
 
+	// the path as it was received when the URL cannot be parsed (e.g. an invalid escape):
+	// the scrubbed body must still be delivered
+	path := onRequest.GetPath()
+	if parsedURL := onRequest.GetParsedURL(); parsedURL != nil {
+		path = parsedURL.Path
+	}
+
 	reqAction := &actions.ModifyRequestAction{
 		HeadersToSet: onRequest.GetHeaders(),
 		Host:         onRequest.GetHost(),
 		Body:         onRequest.GetBody(),
-		Path:         onRequest.GetParsedURL().Path,
+		Path:         path,
 		QueryParams:  onRequest.GetQuery(),
 	}
 
